@@ -271,6 +271,45 @@ def replay_multi(item):
     return dict(ok=True)
 
 
+def find_replace_multi_case(item):
+    """find_replace over SEVERAL resources, and the same pattern specification handed to two steps: every selected resource gets the
+    replacement (what a step did for the first resource must not change what it does for the next), the caller's specification is
+    left as it was"""
+    import copy
+    import dataflows as DF
+    from dataflows import Flow
+    from ..common import tuple_source
+    setup_repo()
+    n, sel = item['n'], item['sel']
+    rows = lambda i: [dict(a=k, b=('xb%d' % k if k % 2 else None), c='bb') for k in range(3 + i)]
+    spec = [dict(name='b', patterns=[dict(find='b', replace='X')]), dict(name='c', patterns=[dict(find='^b', replace='Y'), dict(find='b$', replace='Z')])]
+    before = copy.deepcopy(spec)
+    names = ['t%d' % i for i in range(n)]
+    kw = {} if sel is None else dict(resources=sel)
+    try:
+        with contextlib.redirect_stdout(io.StringIO()):
+            steps = [DF.find_replace(spec, **kw)] + ([DF.find_replace(spec, **kw)] if item['twice'] else [])
+            ds = Flow(tuple_source([(nm, [('a', 'integer'), ('b', 'string'), ('c', 'string')], rows(i)) for i, nm in enumerate(names)]), *steps).datastream()
+            out = [[dict(r) for r in res] for res in ds.res_iter]
+    except Exception as e:
+        return dict(ok=False, why='raised %s: %s' % (type(e).__name__, str(e)[:150]))
+    chosen = names if sel is None else [names[sel]] if isinstance(sel, int) else [x for x in names if x in sel]
+
+    def rep(v, c_):
+        if v is None:
+            return None
+        if c_ == 'b':
+            return v.replace('b', 'X')
+        return 'YZ'            # '^b' -> Y, then 'b$' -> Z on "bb" (the second application finds nothing left)
+    for i, nm in enumerate(names):
+        want = [dict(a=r_['a'], b=rep(r_['b'], 'b'), c=rep(r_['c'], 'c')) if nm in chosen else r_ for r_ in rows(i)]
+        if out[i] != want:
+            return dict(ok=False, why='find_replace over several resources: resource %d differs' % i, got=out[i][:3], want=want[:3])
+    if spec != before:
+        return dict(ok=False, why='find_replace changed the specification it was given', got=repr(spec)[:200])
+    return dict(ok=True)
+
+
 def multi_items(cases, r, t):
     base = [c for c in cases if c['op'] in ('select', 'delete', 'rename')]
     r.shuffle(base)
@@ -328,6 +367,12 @@ def run():
             rep.violation(dict(multi=it), dict(desc, **{k: v for k, v in out.items() if k != 'ok'}),
                           category='several-resources/%s/%s' % (it['kind'] if it['kind'] == 'case' else it['adder'] + '+' + it['editor'], out['why'][:40]))
     rep.notes['several_resources_cases'] = len(mitems)
+    for it in [dict(find_replace_multi=True, n=n, sel=sel, twice=tw) for n in (1, 2, 3) for sel in (None, 0, -1) for tw in (False, True)]:
+        out = find_replace_multi_case(it)
+        rep.count(1, traces=1)
+        rep.mark_distinct(it)
+        if not out['ok']:
+            rep.violation(it, dict(case=it, **{k: v for k, v in out.items() if k != 'ok'}), category='find_replace-several-resources/%s' % out['why'][:40])
     smp = [c for c in cases if c['op'] in ('select', 'delete', 'rename')][-1]
     rep.sample(dict(case=dict(op=smp['op'], schema=[name(n) for n in smp['schema']], regex=smp['regex'],
                               patterns=[render_re(p['src'] if smp['op'] == 'rename' else p) for p in smp['arg']],
@@ -340,7 +385,8 @@ def run():
 def replay(path):
     setup_repo()
     rec = json.load(open(path))
-    out = replay_multi(rec['case']['multi']) if 'multi' in rec['case'] else replay_case(rec['case'])
+    out = (find_replace_multi_case(rec['case']) if rec['case'].get('find_replace_multi') else
+           replay_multi(rec['case']['multi']) if 'multi' in rec['case'] else replay_case(rec['case']))
     print(json.dumps(out, default=str)[:1500])
     if not out['ok']:
         print('VIOLATION property=%s replay=%s' % (PROP, path))
